@@ -366,6 +366,12 @@ class BytesMixin(object):
       return mk_bytes(atoms)
     if name == 'braw':
       return mk_bytes([('raw', coerce(args[0], ANY) if args[0].ty.k != 'int' else args[0].t, num_term(args[1], False))])
+    if name == 'split_part':
+      return V(STR, z3.Function('split_part', I, I, I, I)(args[0].t, args[1].t, num_term(args[2], False)))
+    if name == 'split_count':
+      return V(INT, z3.Function('split_count', I, I, I)(args[0].t, args[1].t))
+    if name == 'str_to_int':
+      return V(INT, z3.Function('str_to_int', I, I)(args[0].t))
     if name == 'bslice':       # bytes [pos, pos+n) of the (opaque) byte stream named by the first argument
       return mk_bytes([('sl', args[0].t if args[0].ty.k == 'int' else coerce(args[0], ANY), num_term(args[1], False), num_term(args[2], False))])
     if name == 'bempty':
@@ -420,4 +426,4 @@ class BytesMixin(object):
 
 
 BYTE_SPEC_FNS = ('bi8', 'bu8', 'bi16', 'bu16', 'bu24', 'bi32', 'bu32', 'bi64', 'bcat', 'braw', 'bempty', 'blen', 'beq',
-                 'written', 'content', 'utf8', 'bmark', 'since', 'sum_of', 'crc_of', 'summands', 'stream_front', 'bslice')
+                 'written', 'content', 'utf8', 'bmark', 'since', 'sum_of', 'crc_of', 'summands', 'stream_front', 'bslice', 'split_part', 'split_count', 'str_to_int')
